@@ -8,6 +8,16 @@ COMMON_TB = [
 ]
 
 CHECKS = {
+    "C07": {
+        "id": "C07",
+        "engine": "lang",
+        "trusted_base": COMMON_TB + [
+            "modelled, not verified: char iteration / byte indexing of &str (List Char; the validator's (sig,pos) pair is modelled as (previous char, suffix)), Peekable (look-ahead of one character)",
+        ],
+        "level_text": "Proved in Lean for every string: the structural parser model returns ts exactly when the string denotes the valid type list ts of the grammar (<=255 chars, <=32 arrays, <=32 structs, no empty struct, dict entries only inside arrays, any basic key incl. boolean); the byte-level validator model accepts exactly the same strings; hence both agree on every string; printing a parse reproduces the input; the splitter yields exactly the top-level complete types of every valid signature and never reaches its unwrap. The three models are tied to parse_description+to_str, validate_signature, SignatureWrapper::new and SignatureIter exhaustively over all strings of the 19 type characters up to length 4 (thorough 5), on the depth/length boundary families, on grammar-generated signatures with all single-character mutations and on random strings; an independent recursive-descent oracle in the harness reports concrete failing strings.",
+        "level_note": "Theorems are about the Lean model; the tie is exhaustive only up to the enumerated length, sampled beyond. SignatureIter is only specified (and only run) on valid signatures.",
+        "assumptions": ["str/char primitives behave as their List Char models", "the grammar in Spec/Sig.lean (printed forms of well-formed types) is the D-Bus signature grammar"],
+    },
     "C08": {
         "id": "C08",
         "engine": "lang",
